@@ -42,9 +42,28 @@ JOBS["C18"] = [
     H("random", "store", "^TestC18Random$", {"shards": 8, "checks": 2500, "timeout": 900}, {"shards": 14, "checks": 120000, "timeout": 3400}),
 ]
 
+JOBS["C01"] = [
+    H("machine", "beaconnet", "^TestMachine$", {"shards": 12, "checks": 25, "timeout": 900, "env": {"VERIF_PROP": "C01"}}, {"shards": 14, "checks": 400, "timeout": 3400, "env": {"VERIF_PROP": "C01"}}),
+]
+JOBS["C02"] = [
+    H("machine", "beaconnet", "^TestMachine$", {"shards": 12, "checks": 25, "timeout": 900, "env": {"VERIF_PROP": "C02"}}, {"shards": 14, "checks": 400, "timeout": 3400, "env": {"VERIF_PROP": "C02"}}),
+]
+JOBS["C04"] = [
+    H("machine", "beaconnet", "^TestMachine$", {"shards": 12, "checks": 25, "timeout": 900, "env": {"VERIF_PROP": "C04"}}, {"shards": 14, "checks": 400, "timeout": 3400, "env": {"VERIF_PROP": "C04"}}),
+]
+
 LEVELS = {"C13": "fault_enumeration"}
 
+_MACHINE = ("rapid state machine over a network of real beacon handlers: scheme in 5, n in 2..6, t in [n/2+1,n], back-end in {memdb (cap 2000 or 10), bolt trimmed, bolt untrimmed}, period 2..6 s; "
+            "actions: tick, sub-period advance, burst of 2-6 periods, advance of a subset (skew/stall), realign, partition/heal, queue mode with generated delivery order and drops, duplicate mode, stop/restart (same or fresh store), "
+            "forged partial injection (12 kinds incl. valid-for-clock+k), scripted lying sync peer (13 kinds), sync-stream tap. ")
 RULES = {
+    "C01": _MACHINE + "Oracle: every successful base-store Put of round>=1 and every streamed beacon verifies under the harness's own digest + group key for exactly that round/previous signature. "
+           "Non-trivial: a hostile item (forged partial or hostile sync stream) reached a node and beacons were stored afterwards in the case; distinct by configuration + full action history.",
+    "C02": _MACHINE + "Oracle after every step: Put history appends only head+1 or repeats an identical value; store scan is hole-free from 0 (bolt) with prev(r)=sig(r-1) on chained; nodes byte-identical per round. "
+           "Non-trivial: case with a restart, a heal after partition, reordered delivery, or a hostile sync stream; distinct by configuration + full action history.",
+    "C04": _MACHINE + "Oracle: each PartialBeacon call leaving a node is stamped with that node's clock: clock >= genesis+(round-1)*period (harness formula); valid partials for clock round+2/+3/+10 must be refused. "
+           "Non-trivial: case with a burst, skew/stall, stall release, restart or a future-partial injection; distinct by configuration + full action history.",
     "C18": "exhaustive part: for each back-end (bolt trimmed, trimmed+previous-required, untrimmed, untrimmed+previous-required, memdb ring of 10 empty, ring of 10 pre-filled to capacity) every Put/Del sequence "
            "over a 4-round alphabet up to length L (quick 4, thorough 6), each followed by every observation: Get of each round and a neighbour, Last, Len and every cursor session body of length <=3 over "
            "{First, Next, Last, Seek(r)} (399 bodies); random part: rapid state machine of 100s of ops over rounds 0..40 (append, put with gaps / re-put, delete, get, last, len, reopen (bolt), "
